@@ -172,8 +172,7 @@ def make_config(rng, fn=None, big=False, coefs=None, maxvars=6, one_shot_ok=Fals
             mk_ = {"copy": lambda: base_.copy(), "ctor": lambda: type(base_)(base_), "add-empty": lambda: base_ + {}, "deepcopy": lambda: _copy.deepcopy(base_)}[how_]
             first_ = mk_()
             l0_ = labs[0]
-            n1_, n2_, n3_ = [("nv%d" % i_) if isinstance(l0_, str) else (("nv", i_) if isinstance(l0_, tuple) else
-                                                                       ((1000.5 + i_) if isinstance(l0_, float) else 1000 + i_)) for i_ in (1, 2, 3)]
+            n1_, n2_, n3_ = [gen.fresh_like(l0_, i_) for i_ in (1, 2, 3)]
             first_[(n1_,)] += 3                        # (single-label keys: labels of one key must be mutually orderable)
             base_[(n2_,)] += -2                         # the ancestor grows too ...
             second_ = mk_()
